@@ -1,14 +1,29 @@
-# top-level build of the verification framework (offline)
+# top-level build of the verification framework (offline). `make all` is a no-op when up to date.
 COQMF=coq/Makefile.coq
-.PHONY: all coq extract clean
-all: coq extract
+VFILES=$(shell sed -n 's/^\([A-Za-z].*\.v\)$$/coq\/\1/p' coq/_CoqProject)
+.PHONY: all coq clean subprojects
+all: build/.coq_stamp extract/model_driver build/.sub_stamp
 $(COQMF): coq/_CoqProject
 	cd coq && coq_makefile -f _CoqProject -o Makefile.coq
 coq: $(COQMF)
 	$(MAKE) -C coq -f Makefile.coq -j16
-extract: coq
+build/.coq_stamp: $(VFILES) coq/_CoqProject
+	$(MAKE) coq
+	mkdir -p build && touch build/.coq_stamp
+extract/model_driver: build/.coq_stamp extract/Extract.v extract/driver.ml
 	cd extract && coqc -Q ../coq MP Extract.v > /dev/null
-	cd extract && ocamlfind ocamlopt -w -a -package str model.mli model.ml driver.ml -o model_driver
+	cd extract && ocamlfind ocamlopt -w -a -package str model.mli model.ml driver.ml -o model_driver.tmp && mv -f model_driver.tmp model_driver
+# independent Coq developments (own _CoqProject) built if present
+SUBV=$(wildcard coq_effects/*.v coq_effects/_CoqProject coq_qcheck/*.v coq_qcheck/_CoqProject)
+build/.sub_stamp: $(SUBV)
+	$(MAKE) subprojects
+	mkdir -p build && touch build/.sub_stamp
+subprojects:
+	@for d in coq_effects coq_qcheck; do \
+	  if [ -f $$d/_CoqProject ]; then \
+	    (cd $$d && ( [ -f Makefile.coq ] || coq_makefile -f _CoqProject -o Makefile.coq ) && $(MAKE) -f Makefile.coq -j8 > /dev/null) || exit 1; \
+	  fi; done
 clean:
 	-$(MAKE) -C coq -f Makefile.coq clean
-	rm -f coq/Makefile.coq coq/Makefile.coq.conf extract/model.ml extract/model.mli extract/*.cm* extract/*.o extract/model_driver extract/*.vo* extract/*.glob extract/.*.aux
+	rm -f coq/Makefile.coq coq/Makefile.coq.conf extract/model.ml extract/model.mli extract/*.cm* extract/*.o extract/model_driver extract/*.vo* extract/*.glob extract/.*.aux build/.coq_stamp build/.sub_stamp
+	-for d in coq_effects coq_qcheck; do if [ -f $$d/Makefile.coq ]; then $(MAKE) -C $$d -f Makefile.coq clean; rm -f $$d/Makefile.coq $$d/Makefile.coq.conf; fi; done
